@@ -13,9 +13,9 @@ func findProp(id string) *Prop {
 
 var props = []Prop{
 	{
-		ID:    "C03",
-		Level: "exploration",
-		Rule: "Seeded branching operation histories (2-40 derivations by 1 logical client over a pool of <=64 live values; operations drawn from with/without at end/first/last/interior/far indices, ++, offset, >>, >>>, |, &, &~, where, =>, joins, nest, rank, orderby, +>, //seq.*, array/tuple/dict patterns) evaluated by the real compiler+evaluator; after every step every pool value is re-encoded by the harness's own walker and compared with its snapshot, and a random earlier step is re-evaluated from its operands. A run is non-trivial if >=2 derivations succeeded; distinct = distinct sequence of successful operation kinds.",
+		ID:         "C03",
+		Level:      "exploration",
+		Rule:       "Seeded branching operation histories (2-40 derivations by 1 logical client over a pool of <=64 live values; operations drawn from with/without at end/first/last/interior/far indices, ++, offset, >>, >>>, |, &, &~, where, =>, joins, nest, rank, orderby, +>, //seq.*, array/tuple/dict patterns) evaluated by the real compiler+evaluator; after every step every pool value is re-encoded by the harness's own walker and compared with its snapshot, and a random earlier step is re-evaluated from its operands. A run is non-trivial if >=2 derivations succeeded; distinct = distinct sequence of successful operation kinds.",
 		Components: map[string][]string{"real": {"syntax (parser, compiler, stdlib)", "rel (all value representations and operators)"}, "stub": {}},
 		Assume:     []string{"enumeration of a value (Enumerator/Tuple.Enumerator/Number) reports its content faithfully", "no fault kind applies to this property; none is injected"},
 		Batches: []Batch{
@@ -23,9 +23,9 @@ var props = []Prop{
 		},
 	},
 	{
-		ID:    "C19",
-		Level: "fault_enumeration",
-		Rule: "Scenario = (output description generated from the documented grammar incl. every ifExists value and 21 kinds of invalid member at a drawn position, produced by evaluating generated arr.ai source; pre-existing simulated disk state drawn from the same name pool so collisions are frequent). arrai.OutputValue runs against the simulated disk; the resulting full-disk snapshot and the operation log are compared with a reference model of docs/docs/cli/eval.md (reject => failure and byte-identical disk; valid => success and exactly the described tree; nothing outside PATH mutated). For valid scenarios the run is repeated once per disk operation of the fault-free run with that operation failing (mkdir/create/write-with-prefix/sync/close/removeall/stat): success may only be reported with the described tree. Non-trivial = more than 2 disk operations; distinct = distinct (model verdict, ifExists contexts hit, number of top-level entries).",
+		ID:         "C19",
+		Level:      "fault_enumeration",
+		Rule:       "Scenario = (output description generated from the documented grammar incl. every ifExists value and 21 kinds of invalid member at a drawn position, produced by evaluating generated arr.ai source; pre-existing simulated disk state drawn from the same name pool so collisions are frequent). arrai.OutputValue runs against the simulated disk; the resulting full-disk snapshot and the operation log are compared with a reference model of docs/docs/cli/eval.md (reject => failure and byte-identical disk; valid => success and exactly the described tree; nothing outside PATH mutated). For valid scenarios the run is repeated once per disk operation of the fault-free run with that operation failing (mkdir/create/write-with-prefix/sync/close/removeall/stat): success may only be reported with the described tree. Non-trivial = more than 2 disk operations; distinct = distinct (model verdict, ifExists contexts hit, number of top-level entries).",
 		Components: map[string][]string{"real": {"pkg/arrai/out.go (OutputValue and below)", "syntax (evaluation of the description source)", "rel"}, "stub": {"disk: aaverif/simfs (in-memory POSIX-like afero.Fs with operation log and fault injection)"}},
 		Assume:     []string{"simfs reproduces POSIX semantics for the operations out.go uses (Stat, Mkdir, Create, Write, Sync, Close, RemoveAll)", "documentation docs/docs/cli/eval.md is the specification; where it is silent (file/dir kind collisions, entry names that are not one path element, invalid content under an ignored existing entry) several outcomes are accepted"},
 		Batches: []Batch{
@@ -36,15 +36,28 @@ var props = []Prop{
 		},
 	},
 	{
-		ID:    "C20",
-		Level: "fault_enumeration",
-		Rule: "Scenario = simulated directory layout (1-4 *_test.arrai files in nested directories, a directory named like a test file, hidden directories holding failing/broken tests that must be skipped, non-test decoys, files importing siblings; target given absolute, relative, as a sub-directory or as a single file) x generated result trees (tuples/arrays/dicts nested <=4 built by several routes incl. +>, ++ and offset arrays; leaves true/false/other by several spellings; optional syntax or evaluation errors). test.RunTests runs against the simulated disk; its error and parsed report are compared with the leaf census the generator wrote down (pass iff all leaves true; one report line per leaf; summary counts add up). Then the run is repeated once per disk operation of the fault-free run with that operation failing (stat/open/read-with-prefix/readdir/close): a fault may turn a pass into a failure, never a failure into a pass. Half of the scenarios are all-true so both directions of the iff are exercised. Non-trivial = >=2 leaves; distinct = distinct (verdict, file count, multiset of leaf paths and outcomes).",
+		ID:         "C20",
+		Level:      "fault_enumeration",
+		Rule:       "Scenario = simulated directory layout (1-4 *_test.arrai files in nested directories, a directory named like a test file, hidden directories holding failing/broken tests that must be skipped, non-test decoys, files importing siblings; target given absolute, relative, as a sub-directory or as a single file) x generated result trees (tuples/arrays/dicts nested <=4 built by several routes incl. +>, ++ and offset arrays; leaves true/false/other by several spellings; optional syntax or evaluation errors). test.RunTests runs against the simulated disk; its error and parsed report are compared with the leaf census the generator wrote down (pass iff all leaves true; one report line per leaf; summary counts add up). Then the run is repeated once per disk operation of the fault-free run with that operation failing (stat/open/read-with-prefix/readdir/close): a fault may turn a pass into a failure, never a failure into a pass. Half of the scenarios are all-true so both directions of the iff are exercised. Non-trivial = >=2 leaves; distinct = distinct (verdict, file count, multiset of leaf paths and outcomes).",
 		Components: map[string][]string{"real": {"pkg/test (RunTests, walk, RunExpr, ForeachLeaf, calcStats, Report)", "syntax (compiler, evaluator, local imports)", "rel"}, "stub": {"disk: aaverif/simfs", "report writer: bytes.Buffer"}},
 		Assume:     []string{"the census is written down by the generator, not computed by evaluating anything", "dictionaries with several values under one key, and array index naming across offsets/holes, are not specified and not compared", "wall-time fields of the report are ignored"},
 		Batches: []Batch{
 			{Name: "layouts", Engine: "atest", Quick: 3000, Thorough: 300000, Timeout: 60 * time.Second},
 			{Name: "layouts-sparse", Engine: "atest", Quick: 600, Thorough: 50000, Knobs: map[string]string{"sparse": "on"}, Timeout: 60 * time.Second},
 			{Name: "faults", Engine: "atest", Quick: 300, Thorough: 20000, Knobs: map[string]string{"faults": "enum"}, Timeout: 120 * time.Second},
+		},
+	},
+	{
+		ID:         "C17",
+		Level:      "exploration",
+		Rule:       "History = tape-drawn script of 3-30 steps (Update with unique constant / function of $ / failing expression; Observe of $, projections that fail on some states, constants, always-failing; cancel incl. repeated and of ended observers; Hangup; release) issued by client goroutines to the real engine inside one synctest bubble; observer callbacks return an error or block until released as a seeded function of (observer, state serial). After every step the bubble is run to quiescence and a sequential reference model is advanced: every call answered unless a callback the harness itself blocks is in progress; failed update changes nothing; each observer's recorded deliveries equal the model's stream while it is live; after all releases one more update is acknowledged (bounded liveness in steps); update/first-read history checked with porcupine against a register. Non-trivial = >=2 updates and >=1 observer; distinct = distinct (sequence of call kinds, observer outcomes).",
+		Components: map[string][]string{"real": {"engine (Start, Update, Observe, cancel, Hangup, Stop, watcher.update/close)", "syntax + rel (expressions)", "layer 2: cmd/arrai arraiServer.Update/Observe, rel.MarshalToJSON"}, "stub": {"clients and observer callbacks", "layer 2: gRPC transport below pb.Arrai_UpdateServer / pb.Arrai_ObserveServer (fake streams)"}},
+		Assume:     []string{"at most one client call is pending on the engine at a time (Go's select among several ready channels is not steerable); overlap exists only behind a blocked callback", "deliveries to an observer the model has ended, and repeated closes, are counted, not flagged", "websocket frontend, TLS and real sockets are not covered"},
+		Batches: []Batch{
+			{Name: "engine-nofault", Engine: "engsim", Quick: 2000, Thorough: 200000, Knobs: map[string]string{"faults": "off"}, Timeout: 60 * time.Second},
+			{Name: "engine-faults", Engine: "engsim", Quick: 3000, Thorough: 300000, Knobs: map[string]string{"faults": "on"}, Timeout: 60 * time.Second},
+			{Name: "grpc-nofault", Engine: "grpcsim", Bin: "ov-cmd", Quick: 1000, Thorough: 50000, Knobs: map[string]string{"faults": "off"}, Timeout: 60 * time.Second},
+			{Name: "grpc-faults", Engine: "grpcsim", Bin: "ov-cmd", Quick: 2000, Thorough: 100000, Knobs: map[string]string{"faults": "on"}, Timeout: 60 * time.Second},
 		},
 	},
 }
